@@ -448,6 +448,8 @@ def densify(coords: CoordList, resolution: float) -> CoordList:
     """
     Adds points so they are at most `resolution` units apart.
     """
+    if not resolution > 0:
+        raise ValueError(f"Densify resolution must be positive, got {resolution}")
     d2 = resolution**2
 
     def short_enough(p1, p2):
@@ -726,7 +728,7 @@ class Geometry(SupportsCoords[float]):
         if resolution == "auto":
             resolution = _auto_resolution(self)
 
-        if resolution is not None and math.isfinite(resolution):
+        if resolution is not None and math.isfinite(resolution) and resolution > 0:
             geom = self.segmented(resolution)
         else:
             geom = self
@@ -1453,4 +1455,10 @@ def mid_longitude(geom: Geometry) -> float:
 
 def _auto_resolution(g: Geometry) -> float:
     # aim for ~100 points per side of a square
-    return math.sqrt(g.area) * 4 / 100
+    sz = math.sqrt(g.area)
+    if not sz > 0:
+        # lines have no area, use larger side of the bounding box instead
+        sz = max(g.boundingbox.span_x, g.boundingbox.span_y)
+    if not sz > 0:
+        return math.inf  # point or empty, nothing to densify
+    return sz * 4 / 100
